@@ -192,6 +192,7 @@ structure St where
   fds : List (Nat × FdKind)   -- open descriptors
   hostOut : Nat := 0          -- bytes delivered to the host's stdout/stderr
   slept : Nat := 0            -- nanoseconds really slept
+  sleepAsked : Nat := 0       -- nanoseconds handed to the context's Nanosleep (real or not)
   yields : Nat := 0           -- real scheduler yields
   deriving Repr
 
@@ -391,8 +392,9 @@ def pollOneoff (F : Facilities) (st : St) : List Nat → St × Res
       | .error (e, w) => (st, { errno := e, writes := w0 ++ w })
       | .ok (w, nev, to, blk) =>
         if nev == n then
-          let t := to.getD 0
-          ({ st with slept := st.slept + (if F.realSleep then t else 0) }, ok (w0 ++ w))
+          -- `timeout` starts at 1<<63 - 1 and is only lowered by clock subscriptions
+          let t := to.getD (2 ^ 63 - 1)
+          ({ st with slept := st.slept + (if F.realSleep then t else 0), sleepAsked := st.sleepAsked + t }, ok (w0 ++ w))
         else
           match st.kind? 0 with
           | none => (st, { errno := ErrnoBadf, writes := w0 ++ w })
